@@ -20,6 +20,12 @@ type TestPlan struct {
 	// SkipAt > 0: every execution calls snaps.Skip after its first SkipAt calls and ends
 	// there (the remaining calls are not made)
 	SkipAt int `json:"skip_at,omitempty"`
+	// CleanupAt > 0: before its CleanupAt-th call (or, when CleanupAt == len(Ops)+1, after its
+	// last one) the test registers a t.Cleanup callback that makes the CleanupOps calls. They
+	// address only files the test does not call into after that point, so they continue the
+	// ordinals of the body (the library's own resets for those files run after the callback).
+	CleanupAt  int  `json:"cleanup_at,omitempty"`
+	CleanupOps []Op `json:"cleanup_ops,omitempty"`
 }
 
 // History is a generated program: tests, their calls, and pre-existing content.
@@ -41,6 +47,7 @@ type HistOpts struct {
 	NoHeader   bool
 	Standalone bool
 	Skips      bool // some tests call snaps.Skip part-way through
+	Cleanups   bool // some tests make Match* calls from a t.Cleanup callback registered part-way
 	Twins      bool // may add a second live test with the SAME name on other files (package p and p_test both declaring TestX)
 }
 
@@ -371,6 +378,46 @@ func GenHistory(r *rand.Rand, o HistOpts) History {
 			}
 		}
 	}
+	if o.Cleanups {
+		for i := range h.Tests {
+			tp := &h.Tests[i]
+			if tp.SkipAt > 0 || len(tp.Ops) < 2 || r.IntN(5) != 0 {
+				continue
+			}
+			p := 1 + r.IntN(len(tp.Ops)) // the callback is registered after p calls
+			key := func(op Op) string {
+				if op.standalone() {
+					return "S|" + op.API + "|" + op.Ext
+				}
+				return "M|" + op.File + "|" + op.Ext
+			}
+			later := map[string]bool{}
+			for _, op := range tp.Ops[p:] {
+				later[key(op)] = true
+				if op.standalone() {
+					later["S"] = true // standalone calls of a test share one ordinal sequence per name pattern
+				}
+			}
+			var cands []Op
+			for _, op := range tp.Ops[:p] {
+				if op.Empty || op.Fail != "" || later[key(op)] || (op.standalone() && later["S"]) {
+					continue
+				}
+				cands = append(cands, op)
+			}
+			if len(cands) == 0 {
+				continue
+			}
+			for k, n := 0, 1+r.IntN(2); k < n; k++ {
+				op := cands[r.IntN(len(cands))]
+				op.Multi, op.AltVal, op.FailOnlyExec = nil, nil, 0
+				op.Val = genValue(r, op.API, nil, HistOpts{NoHuge: true, NoHeader: true}, h.Classes)
+				tp.CleanupOps = append(tp.CleanupOps, op)
+			}
+			tp.CleanupAt = p + 1
+			h.Classes["match-calls-from-a-cleanup-callback"] = true
+		}
+	}
 	if o.Twins && r.IntN(6) == 0 {
 		// test names are unique per package only: `package p` and `package p_test` of one
 		// directory may both declare TestX and run in one binary. The twin uses its own files.
@@ -402,6 +449,7 @@ type exec struct {
 	plan *TestPlan
 	next int
 	idx  int // 1-based execution number of this test in the process
+	cb   bool // the cleanup callback of the plan has been registered
 }
 
 // RunProcess executes every test of the history once per requested execution in
@@ -427,7 +475,7 @@ func (s *Sess) RunProcessN(r *rand.Rand, h *History, m vkit.Mode, noColor bool, 
 	}
 	for _, tp := range h.Tests {
 		cnt := map[string]int{}
-		for _, op := range tp.Ops {
+		for _, op := range append(append([]Op(nil), tp.Ops...), tp.CleanupOps...) {
 			if !op.standalone() && !op.Empty {
 				p := s.MultiPath(op)
 				cnt[p]++
@@ -435,7 +483,29 @@ func (s *Sess) RunProcessN(r *rand.Rand, h *History, m vkit.Mode, noColor bool, 
 			}
 		}
 	}
+	aborted := false
+	// regCleanup registers the plan's cleanup callback when its turn has come.
+	regCleanup := func(e *exec) {
+		if e.cb || e.plan.CleanupAt == 0 || e.next != e.plan.CleanupAt-1 {
+			return
+		}
+		e.cb = true
+		e.t.Cleanup(func() {
+			for k, op := range e.plan.CleanupOps {
+				if aborted {
+					return
+				}
+				if mutate != nil {
+					mutate(e.plan, 1000+k, &op)
+				}
+				if !onStep(op, s.Step(e.t, op, m)) {
+					aborted = true
+				}
+			}
+		})
+	}
 	stepOne := func(e *exec) bool {
+		regCleanup(e)
 		op := e.plan.Ops[e.next]
 		if op.Fail != "" && op.FailOnlyExec >= 1 && op.FailOnlyExec != e.idx {
 			op.Fail = ""
@@ -467,7 +537,11 @@ func (s *Sess) RunProcessN(r *rand.Rand, h *History, m vkit.Mode, noColor bool, 
 					snaps.Skip(e.t, "skipped by plan")
 					e.t.Take()
 				}
+				regCleanup(e)
 				s.EndExec(e.t)
+				if aborted {
+					return false
+				}
 			}
 		}
 		return true
@@ -505,7 +579,11 @@ func (s *Sess) RunProcessN(r *rand.Rand, h *History, m vkit.Mode, noColor bool, 
 				snaps.Skip(e.t, "skipped by plan")
 				e.t.Take()
 			}
+			regCleanup(e)
 			s.EndExec(e.t)
+			if aborted {
+				return false
+			}
 			live[i] = nil
 		}
 	}
